@@ -12,7 +12,7 @@ OUTSIDE = ["full Nesterov/original runs with smooth colliders (nested radicals);
            "normalize_support_direction (mesh-mesh with acceleration)", "rounding"]
 BOUNDS = {"quick": "original: 6 polytope pairs x 4 sweeps; nesterov +-acceleration: 3 pairs x 4 sweeps, primitives: box pairs; contract: all 121 ordered type pairs x 1 rotation sweep of the whole scene (all angles but pi)",
           "thorough": "all corpus pairs and sweeps; contract x 3 rotation sweeps x both modules"}
-WALL_BUDGET = {"quick": 420, "thorough": 3000}
+WALL_BUDGET = {"quick": 420, "thorough": 900}
 EXPECTED_EXCEPTIONS = ()
 
 
@@ -27,8 +27,26 @@ def make(family, args):
     return GC.AltDistance("C09", args)
 
 
-def jobs(tier, seed):
+def _contract_jobs(tier):
     J = []
+    T = GC.ALL_TYPES
+    axes = [CC.Z] if tier == "quick" else [CC.X, CC.Y, CC.Z]
+    for i, a in enumerate(T):
+        for k, b in enumerate(T):
+            for ai, ax in enumerate(axes):
+                mods = ["generic"]
+                prim_ok = ("sphere", "capsule", "box", "ellipsoid", "cylinder")
+                if a["type"] in prim_ok and b["type"] in prim_ok:
+                    mods.append("prim")
+                for m in mods:
+                    J.append({"family": "contract:%s_%s" % (a["type"], b["type"]),
+                              "args": {"a": a, "b": b, "axis": ax, "r0a": (3 * i + k) % 24, "r0b": (5 * k + i + 7) % 24,
+                                       "ta": [0.0, 0.25, 0.0], "tb": [3.0, -0.5, 1.0], "module": m}})
+    return J
+
+
+def jobs(tier, seed):
+    J = _contract_jobs(tier)          # cheap (one support evaluation each): first, so that a tight wall budget never drops them
     for j in GC.pair_jobs(tier, seed, algo="original", n_pairs_quick=6):
         j["family"] = "original:" + j["family"]
         J.append(j)
@@ -43,17 +61,4 @@ def jobs(tier, seed):
     for j in GC.pair_jobs(tier, seed, n_pairs_quick=2):
         j["family"] = "jolt_iterations:" + j["family"]
         J.append(j)
-    T = GC.ALL_TYPES
-    axes = [CC.Z] if tier == "quick" else [CC.X, CC.Y, CC.Z]
-    for i, a in enumerate(T):
-        for k, b in enumerate(T):
-            for ai, ax in enumerate(axes):
-                mods = ["generic"]
-                prim_ok = ("sphere", "capsule", "box", "ellipsoid", "cylinder")
-                if a["type"] in prim_ok and b["type"] in prim_ok:
-                    mods.append("prim")
-                for m in mods:
-                    J.append({"family": "contract:%s_%s" % (a["type"], b["type"]),
-                              "args": {"a": a, "b": b, "axis": ax, "r0a": (3 * i + k) % 24, "r0b": (5 * k + i + 7) % 24,
-                                       "ta": [0.0, 0.25, 0.0], "tb": [3.0, -0.5, 1.0], "module": m}})
     return J
